@@ -1,6 +1,7 @@
 ------------------------------- MODULE MCRoll2 -------------------------------
 EXTENDS RollKernels2, Json
 CONSTANTS ValA, ValB, WithNull
+SignedA == {0 - 1, 0, 2}
 ElemADef == ValA \cup (IF WithNull THEN {NULL} ELSE {})
 ElemBDef == ValB \cup (IF WithNull THEN {NULL} ELSE {})
 EmitRoll2 ==
